@@ -6,6 +6,7 @@ package main
 import (
 	"fmt"
 	"math/rand"
+	"strconv"
 	"strings"
 )
 
@@ -65,16 +66,20 @@ func (e eols) String() string { return fmt.Sprintf("eol%d-fin%v", e.mode, e.fina
 // join renders lines; an unterminated file never ends in an empty line (that would be the same bytes as one line less)
 func (e eols) join(lines []string) []byte {
 	var sb strings.Builder
+	rt.crlf, rt.final = nil, true
 	for i, l := range lines {
 		sb.WriteString(l)
 		last := i == len(lines)-1
 		if last && !e.final && l != "" {
+			rt.final = false
 			break
 		}
 		if e.mode == 1 || (e.mode == 2 && e.r.Intn(2) == 0) {
 			sb.WriteString("\r\n")
+			rt.crlf = append(rt.crlf, '1')
 		} else {
 			sb.WriteString("\n")
+			rt.crlf = append(rt.crlf, '0')
 		}
 	}
 	return []byte(sb.String())
@@ -217,14 +222,26 @@ func (a apkRec) lines() []string {
 }
 
 func renderApk(recs []apkRec, lead int, gap func(i int) int, tail int, e eols) []byte {
+	rtReset()
 	ls := blanks(lead)
+	for k := 0; k < lead; k++ {
+		rtItem("b")
+	}
 	for i, a := range recs {
 		ls = append(ls, a.lines()...)
+		rtItem("r" + hq(a.name) + "," + hq(a.ver) + "," + b01(a.vFirst) + "," + kvList(a.pre) + "," + kvList(a.mid) + "," + kvList(a.post))
 		if i < len(recs)-1 {
-			ls = append(ls, blanks(1+gap(i))...)
+			g := 1 + gap(i)
+			ls = append(ls, blanks(g)...)
+			for k := 0; k < g; k++ {
+				rtItem("b")
+			}
 		}
 	}
 	ls = append(ls, blanks(tail)...)
+	for k := 0; k < tail; k++ {
+		rtItem("b")
+	}
 	return e.join(ls)
 }
 
@@ -264,7 +281,7 @@ func genApk(r *rand.Rand) gcase {
 		}
 		return r.Intn(1 + gaps)
 	}, tail, e)
-	return gcase{format: "apk", data: data, expect: exp, known: true, class: "wf-" + e.String()}
+	return gcase{format: "apk", data: data, expect: exp, known: true, class: "wf-" + e.String(), rtok: rtTok()}
 }
 
 var apkPool = []string{"P:musl", "P:busybox", "P:", "V:1.2.3-r0", "V:", "V:2.0", "A:x86_64", "o:musl", "m:a <b@c>", "L:MIT", "c:abc123", "", "", "garbage", "P:zlib\r", "V:1.3\r", "\r", "X", ":novalue", "k:v:w", "P musl", " P:x", "P:a\x00b", "\xff:\xfe"}
@@ -318,7 +335,7 @@ func smallApk(emit func(gcase)) {
 								tail = 1
 							}
 							data := renderApk(recs, lead, func(int) int { return gap }, tail, e)
-							emit(gcase{format: "apk", data: data, expect: exp, known: true, class: "small"})
+							emit(gcase{format: "apk", data: data, expect: exp, known: true, class: "small", rtok: rtTok()})
 						}
 					}
 				}
@@ -373,11 +390,19 @@ func genGradleRec(r *rand.Rand) gradleRec {
 
 func renderGradle(recs []gradleRec, before func(i int) []string, after []string, e eols) []byte {
 	var ls []string
+	rtReset()
 	for i, g := range recs {
-		ls = append(ls, before(i)...)
+		for _, f := range before(i) {
+			ls = append(ls, f)
+			rtItem("f" + hq(f))
+		}
 		ls = append(ls, g.line())
+		rtItem("r" + hq(g.group) + "," + hq(g.artifact) + "," + hq(g.ver) + "," + hq(g.confs) + "," + hq(g.lead) + "," + hq(g.trail))
 	}
-	ls = append(ls, after...)
+	for _, f := range after {
+		ls = append(ls, f)
+		rtItem("f" + hq(f))
+	}
 	return e.join(ls)
 }
 
@@ -409,7 +434,7 @@ func genGradle(r *rand.Rand) gcase {
 		after = append(after, gradleFiller(r))
 	}
 	data := renderGradle(recs, before, after, e)
-	return gcase{format: "gradle", data: data, expect: exp, known: true, class: "wf-" + e.String()}
+	return gcase{format: "gradle", data: data, expect: exp, known: true, class: "wf-" + e.String(), rtok: rtTok()}
 }
 
 var gradlePool = []string{"# comment", "empty=", "empty=annotationProcessor", "com.g:guava:31.1-jre=compileClasspath,runtimeClasspath", "org.s:slf4j:1.7=rt", "a:b", "a:b:c", "a:b:=x", ":b:1=x", "  org.x:y:2=z  ", "", "a:b:c:d=e", "\t#x", "x:y:1==", "emptyfoo:b:1=c", "\xc2\xa0a:b:1=c\xc2\xa0", "\xe2\x80\x83#c", "a:b:1=c\xe2\x80\x83", "\xc2a:b:1=c", "a:b:1=c\xa0", "\xe3\x80\x80empty=", "a:b:1=\x85", "\x85a:b:2=c", "\xe2\x80a:b:3=c", "a:b:4=c\xe2\x80", "a:b:5=c\x80\x80", "\xe1\x9a\x80a:b:6=c\xe2\x81\x9f"}
@@ -472,7 +497,7 @@ func smallGradle(emit func(gcase)) {
 								after = []string{"empty=annotationProcessor"}
 							}
 							data := renderGradle(recs, before, after, eols{mode: eol, final: fin == 1})
-							emit(gcase{format: "gradle", data: data, expect: exp, known: true, class: "small"})
+							emit(gcase{format: "gradle", data: data, expect: exp, known: true, class: "small", rtok: rtTok()})
 						}
 					}
 				}
@@ -581,9 +606,35 @@ func genGemSecs(r *rand.Rand, n int) ([]gemSec, []nv) {
 
 func renderGem(r *rand.Rand, secs []gemSec, gap func(i int) int, e eols) []byte {
 	var ls []string
+	rtReset()
 	for i, s := range secs {
-		ls = append(ls, blanks(gap(i))...)
+		g := gap(i)
+		ls = append(ls, blanks(g)...)
+		for k := 0; k < g; k++ {
+			rtItem("b")
+		}
 		ls = append(ls, s.lines(r)...)
+		rtItem("s" + hq(s.name))
+		aux := func(l string) {
+			t := strings.TrimLeft(l, " ")
+			rtItem("a" + strconv.Itoa(len(l)-len(t)) + "," + hq(t))
+		}
+		for _, o := range s.opts {
+			aux(o)
+		}
+		for _, sp := range s.specs {
+			pl := "!"
+			if sp.plat != "" {
+				pl = hq(sp.plat)
+			}
+			rtItem("p" + hq(sp.name) + "," + hq(sp.ver) + "," + pl)
+			for _, d := range sp.deps {
+				aux("      " + d)
+			}
+		}
+		for _, o := range s.other {
+			aux(o)
+		}
 	}
 	return e.join(ls)
 }
@@ -607,7 +658,7 @@ func genGemfile(r *rand.Rand) gcase {
 		}
 		return 1 + r.Intn(1+g) - r.Intn(2)*r.Intn(2) // usually ≥ 1 blank line, sometimes none
 	}, e)
-	return gcase{format: "gemfile", data: data, expect: exp, known: true, class: "wf-" + e.String()}
+	return gcase{format: "gemfile", data: data, expect: exp, known: true, class: "wf-" + e.String(), rtok: rtTok()}
 }
 
 var gemPool = []string{"GEM", "GIT", "PATH", "PLUGIN SOURCE", "PLATFORMS", "DEPENDENCIES", "BUNDLED WITH", "  remote: https://rubygems.org/", "  revision: abc123", "  specs:", "    ast (2.4.2)", "    nokogiri (1.13.3-x86_64-linux)", "      racc (~> 1.4)", "    racc (1.6.0)", "    bare", "    weird (", "    x ()", "    y (-1)", "    z (1.0)!", "", "  ruby", "   2.3.7", "    a b (1)", "    q (1)-2)", "    p (1-2)!", "    ! (1)", "    (2)", "     five (1)", "\tGEM", "    m (1) (2)", "    n (1)(2)!", "    o (1-)", "    r (1)!!", "    s (1-2-3))!"}
@@ -678,7 +729,7 @@ func smallGemfile(emit func(gcase)) {
 							}
 							return gap
 						}, eols{mode: eol, final: fin == 1})
-						emit(gcase{format: "gemfile", data: data, expect: exp, known: true, class: "small"})
+						emit(gcase{format: "gemfile", data: data, expect: exp, known: true, class: "small", rtok: rtTok()})
 					}
 				}
 			}
